@@ -19,6 +19,8 @@ def run_case(case):
 
     def checkpoint(at):
         for mi, model in enumerate(run.models):
+            if mi in run.removed:
+                continue
             for roi in (False, True):
                 cp = {'at': at, 'model': mi, 'roi': roi, 'oracle': []}
                 try:
@@ -86,7 +88,7 @@ def evaluate(cases):
     reqs = []
     for case in cases:
         cps, stopped, run = run_case(case)
-        runs.append((case, cps, stopped, run.steps))
+        runs.append((case, cps, stopped, dict(run.steps, recycled=[('recycled',)] * run.recycled)))
         reqs += [('c16', cp['req']) for cp in cps]
     answers = common.batch_driver(reqs) if reqs else []
     out = []
@@ -161,10 +163,12 @@ def account(cases):
             if v:
                 st['options'][o] = st['options'].get(o, 0) + 1
         for o, v in (('enum_states', case['enum']), ('queued', case.get('queued')), ('retrigger_callbacks', case.get('retrig')),
-                     ('locked_class', case.get('locked')), ('custom_model_attribute', case.get('model_attr') == 'custom'),
+                     ('locked_class', case.get('locked')), ('machine_modifying_callback', case.get('modcb')), ('custom_model_attribute', case.get('model_attr') == 'custom'),
                      ('custom_attribute_and_own_state', case.get('model_attr') == 'custom' and case.get('own_state'))):
             if v:
                 st['options'][o] = st['options'].get(o, 0) + 1
+        if run_steps.get('recycled'):
+            st['options']['model_at_recycled_address'] = st['options'].get('model_at_recycled_address', 0) + 1
         if any(s[0] == 'begin' and k + 1 < len(ss) and ss[k + 1][0] == 'begin'
                for ss in run_steps.values() for k, s in enumerate(ss)):
             st['options']['nested_event_executed'] = st['options'].get('nested_event_executed', 0) + 1
@@ -187,6 +191,10 @@ def shrink_steps(case):
                 c = copy.deepcopy(case)
                 del c['ops'][k][1][j]
                 yield c
+    if case.get('modcb'):
+        c = copy.deepcopy(case)
+        c['modcb'] = None
+        yield c
     for cb in list(case.get('retrig', {})):
         c = copy.deepcopy(case)
         del c['retrig'][cb]
@@ -251,7 +259,8 @@ class C16(runner.Check):
     theorems = ('TM.C16_states_once_nested', 'TM.C16_states_once_flat', 'TM.C16_edges_exact',
                 'TM.C16_edges_present', 'TM.C16_elements_cover', 'TM.C16_final_initial_marked',
                 'TM.C16_final_marked_flat', 'TM.C16_activity', 'TM.C16_activity_current', 'TM.C16_activity_previous', 'TM.C16_activity_attribute',
-                'TM.C16_roi', 'TM.C16_roi_defined', 'TM.C16_regenerated', 'TM.C16_no_cache')
+                'TM.C16_roi', 'TM.C16_roi_defined', 'TM.C16_regenerated', 'TM.C16_no_cache', 'TM.C16_add_model_fresh',
+                'TM.C16_activity_regen_during_change_counterexample')
     manifest = dict(
         level='proof', design='DESIGN.md 4/C16 + design_notes/C16.md',
         text="Mermaid backend only. Lean 4 theorems over an executable model of _get_elements / _transition_label / "
@@ -381,6 +390,12 @@ class C16(runner.Check):
             'machine is C13/C14 business); automatic = trigger name starts with "to_", which generated names never do',
             'state tags / timeouts (feature mixins) in show_state_attributes are not generated; histories stop at an '
             'operation on which the engine itself raises (other properties)',
+            'one open finding: a state callback that changes the machine (add_transition) while a state change is in '
+            'progress regenerates the graph for the source state (two active states); classified when the graph of that '
+            'model was regenerated with a transition in progress and the extra active state is that transition\'s source '
+            '(or its previous style is missing); the model mirrors the code as it is',
+            'a regeneration wipes the previous style: afterwards the last source may or may not carry it, but no other '
+            'state may; models removed from the machine are not judged until they are attached again',
             'the model follows the repaired tree only; corpus/C16/*.json (witnesses of the four former findings) run '
             'first on every run and must pass',
         ]
